@@ -314,6 +314,13 @@ func checkC06(p *Program, r *Report) {
 	sort.Slice(under, func(i, j int) bool { return under[i].String() < under[j].String() })
 	checkMaskTrim(p, r, "C06.trim", under)
 	checkLegacyEmptiness(p, r, under)
+	var conv []*ssa.Function
+	for _, f := range under {
+		if trieScope(f) {
+			conv = append(conv, f)
+		}
+	}
+	checkLostCarry(p, r, "C06.carry", conv)
 }
 
 // checkLegacyEmptiness (C06.empty-legacy): in the pre-0.5.10 layout a trie
@@ -409,7 +416,10 @@ func checkLegacyEmptiness(p *Program, r *Report, fns []*ssa.Function) {
 }
 
 func init() {
-	controlFns["C06"] = func(fx *Program, r *Report) { controlMaskTrim(fx, r, "C06.trim") }
+	controlFns["C06"] = func(fx *Program, r *Report) {
+		controlMaskTrim(fx, r, "C06.trim")
+		controlLostCarry(fx, r, "C06.carry")
+	}
 }
 
 func sortStr(s []string) []string { sort.Strings(s); return s }
